@@ -5,14 +5,16 @@
 //! decoder and a real verifier, and through the harness's own dissection (own base64url, own
 //! signing-input formula). Part B drives the storage-backed `create_jws` of CoreDocument /
 //! IotaDocument over all `JwsSignatureOptions` fields and verifies positively and negatively
-//! (other method's key, other nonce, excluding scope).
+//! (other method's key, other nonce, excluding scope; dangling references to other DIDs' methods named by the verifier).
+//! Part C bridges the two: encoder tokens (no kid / unrelated kid / own kid) signed with the storage key of a document
+//! method must verify against the document under the method named by the verifier, and only under it.
 #[path = "../shared/jwsb.rs"]
 mod jwsb;
 
 use futures::executor::block_on;
 use identity_core::common::{Object, Url};
 use identity_core::convert::FromJson;
-use identity_credential::credential::Credential;
+use identity_credential::credential::{Credential, Jws};
 use identity_credential::presentation::{JwtPresentationOptions, Presentation};
 use identity_did::{CoreDID, DIDUrl};
 use identity_document::document::CoreDocument;
@@ -25,7 +27,7 @@ use identity_jose::jws::{
   CharSet, CompactJwsEncoder, CompactJwsEncodingOptions, Decoder, FlattenedJwsEncoder, GeneralJwsEncoder, JwsAlgorithm, JwsHeader, JwsVerifier,
   Recipient, SignatureVerificationError, SignatureVerificationErrorKind, VerificationInput,
 };
-use identity_storage::{JwkDocumentExt, JwkMemStore, JwsSignatureOptions, KeyIdMemstore, Storage};
+use identity_storage::{JwkDocumentExt, JwkMemStore, JwkStorage, JwsSignatureOptions, KeyId, KeyIdMemstore, KeyIdStorage, MethodDigest, Storage};
 use identity_verification::{MethodRelationship, MethodScope, VerificationMethod};
 use serde_json::{json, Value};
 use vh::b64::{url_decode, url_encode};
@@ -452,11 +454,48 @@ impl Doc {
       Doc::Iota(d) => d.core_document(),
     }
   }
+
+  /// `verify_jws` of the document kind at hand (IotaDocument has its own entry point); claims and protected header of
+  /// an accepted token, the error text of a rejected one.
+  fn verify(&self, token: &str, det: Option<&[u8]>, vo: &JwsVerificationOptions) -> Result<(Vec<u8>, JwsHeader), String> {
+    let verifier = EdDSAJwsVerifier::default();
+    match self {
+      Doc::Core(d) => d.verify_jws(token, det, &verifier, vo).map(|d| (d.claims.to_vec(), d.protected)).map_err(|e| e.to_string()),
+      Doc::Iota(d) => {
+        let jws = Jws::new(token.to_string());
+        d.verify_jws(&jws, det, &verifier, vo).map(|d| (d.claims.to_vec(), d.protected)).map_err(|e| e.to_string())
+      }
+    }
+  }
+}
+
+/// A bare reference placed in verification relationships that names a method of ANOTHER DID which the document does not
+/// contain (no verification method has this id): it resolves to nothing.
+#[derive(Clone, Debug)]
+struct Dangling {
+  id: DIDUrl,
+  rels: Vec<MethodRelationship>,
+  kind: &'static str,
+}
+
+fn vopts(nonce: Option<&str>, method_id: Option<&DIDUrl>, scope: Option<MethodScope>) -> JwsVerificationOptions {
+  let mut v = JwsVerificationOptions::new();
+  if let Some(n) = nonce {
+    v = v.nonce(n);
+  }
+  if let Some(mid) = method_id {
+    v = v.method_id(mid.clone());
+  }
+  if let Some(s) = scope {
+    let route = SCOPE_ROUTE.fetch_add(1, std::sync::atomic::Ordering::Relaxed);
+    v = v.method_scope(scope_via(s, route));
+  }
+  v
 }
 
 type Store = Storage<JwkMemStore, KeyIdMemstore>;
 
-fn build_doc(rng: &mut Rng, iota: bool) -> (Doc, Store, Vec<MethodSpec>, Vec<DIDUrl>) {
+fn build_doc(rng: &mut Rng, iota: bool) -> (Doc, Store, Vec<MethodSpec>, Vec<DIDUrl>, Vec<Dangling>) {
   let storage: Store = Storage::new(JwkMemStore::new(), KeyIdMemstore::new());
   let mut doc = if iota {
     Doc::Iota(IotaDocument::new(&NetworkName::try_from("smr").unwrap()))
@@ -549,38 +588,71 @@ fn build_doc(rng: &mut Rng, iota: bool) -> (Doc, Store, Vec<MethodSpec>, Vec<DID
       }
     }
   }
-  // bare references to look-alike ids (the own DID in another letter case, shortened / extended by a character) with
-  // the fragment of an own method, placed in relationships that do NOT hold that method: they name other DIDs' methods
-  // and must never make the own method count as part of that relationship
+  // bare references to methods of OTHER DIDs that the document does not contain - look-alike ids (the own DID in another
+  // letter case, shortened / extended by a character) and a plainly different DID - with the fragment of an own method,
+  // placed in relationships that do NOT hold that method: they name other DIDs' methods, resolve to nothing, and must
+  // never make the own method count as part of that relationship or answer to that id
+  let mut danglings: Vec<Dangling> = Vec::new();
+  let own = doc.core().id().to_string();
+  let mut cands: Vec<(String, &'static str)> = Vec::new();
   if rng.chance(2, 3) {
-    let own = doc.core().id().to_string();
-    let spec = rng.pick(&specs).clone();
     let alike = match rng.below(3) {
+      0 if iota => own.replacen(":smr:", ":SMR:", 1),
       0 => own.replacen("did:example:c08x", "did:example:C08X", 1),
       1 => own[..own.len() - 1].to_string(),
       _ => format!("{}0", own),
     };
-    if alike != own && !iota {
-      let reference = format!("{}#{}", alike, spec.fragment);
-      let rel_names = ["authentication", "assertionMethod", "keyAgreement", "capabilityDelegation", "capabilityInvocation"];
-      let mut v: Value = serde_json::to_value(doc.core()).expect("harness: document to JSON");
-      let mut placed = false;
-      for (r, name) in RELS.iter().zip(rel_names) {
-        if spec.scopes.contains(&MethodScope::VerificationRelationship(*r)) || !rng.bool() {
-          continue;
-        }
-        let arr = v.as_object_mut().expect("document object").entry(name.to_string()).or_insert_with(|| json!([]));
-        arr.as_array_mut().expect("relationship array").push(json!(reference));
-        placed = true;
-      }
-      if placed {
-        if let (Doc::Core(d), Ok(nd)) = (&mut doc, serde_json::from_value::<CoreDocument>(v)) {
-          *d = nd;
-        }
-      }
+    if alike != own {
+      cands.push((alike, "look-alike"));
     }
   }
-  (doc, storage, specs, twins)
+  if rng.chance(2, 3) {
+    cands.push(("did:example:bob".to_string(), "other-did"));
+  }
+  let rel_names = ["authentication", "assertionMethod", "keyAgreement", "capabilityDelegation", "capabilityInvocation"];
+  for (other_did, kind) in cands {
+    let spec = rng.pick(&specs).clone();
+    let at_front = rng.bool();
+    let picks: Vec<bool> = RELS.iter().map(|_| rng.bool()).collect();
+    let reference = format!("{}#{}", other_did, spec.fragment.trim_start_matches('#'));
+    let Ok(ref_id) = DIDUrl::parse(&reference) else { continue };
+    if specs.iter().any(|s| s.id == ref_id) || twins.contains(&ref_id) || danglings.iter().any(|d| d.id == ref_id) {
+      continue;
+    }
+    let mut v: Value = match &doc {
+      Doc::Core(d) => serde_json::to_value(d).expect("harness: document to JSON"),
+      Doc::Iota(d) => serde_json::to_value(d).expect("harness: document to JSON"),
+    };
+    let mut rels = Vec::new();
+    {
+      let inner = if iota { &mut v["doc"] } else { &mut v };
+      for ((r, name), pick) in RELS.iter().zip(rel_names).zip(picks) {
+        if spec.scopes.contains(&MethodScope::VerificationRelationship(*r)) || !pick {
+          continue;
+        }
+        let arr = inner.as_object_mut().expect("document object").entry(name.to_string()).or_insert_with(|| json!([]));
+        let arr = arr.as_array_mut().expect("relationship array");
+        if at_front {
+          arr.insert(0, json!(reference));
+        } else {
+          arr.push(json!(reference));
+        }
+        rels.push(*r);
+      }
+    }
+    if rels.is_empty() {
+      continue;
+    }
+    // (a document kind that does not accept such references simply goes without them)
+    let ok = match &mut doc {
+      Doc::Core(d) => serde_json::from_value::<CoreDocument>(v).map(|nd| *d = nd).is_ok(),
+      Doc::Iota(d) => serde_json::from_value::<IotaDocument>(v).map(|nd| *d = nd).is_ok(),
+    };
+    if ok {
+      danglings.push(Dangling { id: ref_id, rels, kind });
+    }
+  }
+  (doc, storage, specs, twins, danglings)
 }
 
 fn gen_options(rng: &mut Rng, m: &MethodSpec) -> (JwsSignatureOptions, Value) {
@@ -621,9 +693,12 @@ fn gen_options(rng: &mut Rng, m: &MethodSpec) -> (JwsSignatureOptions, Value) {
   }
   if rng.chance(1, 4) {
     // kid override: an arbitrary string, a foreign id, or another spelling of the method id
-    let k = match rng.below(3) {
+    // ... or the method's fragment in relative / bare form
+    let k = match rng.below(5) {
       0 => "my-own-key-identifier".to_string(),
       1 => "did:example:someone-else#key-0".to_string(),
+      2 => format!("#{}", m.fragment.trim_start_matches('#')),
+      3 => m.fragment.trim_start_matches('#').to_string(),
       _ => format!("{}", m.id),
     };
     o = o.kid(k.clone());
@@ -646,16 +721,23 @@ fn gen_options(rng: &mut Rng, m: &MethodSpec) -> (JwsSignatureOptions, Value) {
 }
 
 impl Cx {
-  fn storage_case(&mut self, rng: &mut Rng, doc: &Doc, storage: &Store, specs: &[MethodSpec], twins: &[DIDUrl], iota: bool) {
+  #[allow(clippy::too_many_arguments)]
+  fn storage_case(&mut self, rng: &mut Rng, doc: &Doc, storage: &Store, specs: &[MethodSpec], twins: &[DIDUrl], dang: &[Dangling], iota: bool) {
     self.rep.eval();
     let m = rng.pick(specs).clone();
     let (pl, pclass) = payload(rng);
     let (o, odesc) = gen_options(rng, &m);
-    let case = json!({"part":"storage","document": if iota {"IotaDocument"} else {"CoreDocument"}, "method": m.id.to_string(), "method_scopes": m.scopes.iter().map(|s| s.as_str()).collect::<Vec<_>>(),
+    // the method is addressed by its bare fragment or by its full id (the only unambiguous way when a reference to
+    // another DID's method with the same fragment sits in a relationship)
+    let shadowed = dang.iter().any(|d| d.id.fragment() == m.id.fragment());
+    let by_full_id = if shadowed { rng.chance(3, 4) } else { rng.chance(1, 4) };
+    let addr: String = if by_full_id { m.id.to_string() } else { m.fragment.clone() };
+    let case = json!({"part":"storage","document": if iota {"IotaDocument"} else {"CoreDocument"}, "method": m.id.to_string(), "addressed_as": addr, "method_scopes": m.scopes.iter().map(|s| s.as_str()).collect::<Vec<_>>(),
+      "dangling_references": dang.iter().map(|d| json!({"id": d.id.to_string(), "in": d.rels.iter().map(|r| MethodScope::VerificationRelationship(*r).as_str()).collect::<Vec<_>>()})).collect::<Vec<_>>(),
       "options": odesc, "payload_b64url": url_encode(&pl), "payload_class": pclass});
     let r = catch(|| match doc {
-      Doc::Core(d) => block_on(d.create_jws(storage, &m.fragment, &pl, &o)),
-      Doc::Iota(d) => block_on(d.create_jws(storage, &m.fragment, &pl, &o)),
+      Doc::Core(d) => block_on(d.create_jws(storage, &addr, &pl, &o)),
+      Doc::Iota(d) => block_on(d.create_jws(storage, &addr, &pl, &o)),
     });
     let eff_b64 = o.b64.unwrap_or(true);
     let token = match r {
@@ -676,6 +758,12 @@ impl Cx {
     };
     self.rep.inc("produced");
     self.rep.inc("produced:create_jws");
+    if by_full_id {
+      self.rep.inc("produced:create_jws:by-full-id");
+    }
+    if shadowed {
+      self.rep.inc("produced:create_jws:shadowed-fragment");
+    }
     self.rep.distinct(
       "nontrivial",
       &format!("create_jws|{}|{}|b64:{:?}|det:{}|kid:{}|nonce:{}|jwk:{}|custom:{}|iota:{}", pclass, m.scopes.len(), o.b64, o.detached_payload, o.kid.is_some(), o.nonce.is_some(), o.attach_jwk, o.custom_header_parameters.is_some(), iota),
@@ -708,22 +796,7 @@ impl Cx {
       }
     }
 
-    let core = doc.core();
-    let verifier = EdDSAJwsVerifier::default();
-    let base = |nonce: Option<&str>, method_id: Option<&DIDUrl>, scope: Option<MethodScope>| {
-      let mut v = JwsVerificationOptions::new();
-      if let Some(n) = nonce {
-        v = v.nonce(n);
-      }
-      if let Some(mid) = method_id {
-        v = v.method_id(mid.clone());
-      }
-      if let Some(s) = scope {
-        let route = SCOPE_ROUTE.fetch_add(1, std::sync::atomic::Ordering::Relaxed);
-        v = v.method_scope(scope_via(s, route));
-      }
-      v
-    };
+    let base = vopts;
     // the kid names the method unless it was overridden by something that is not its id
     let kid_names_method = o.kid.as_ref().map(|k| k == &m.id.to_string()).unwrap_or(true);
     let mut positive: Vec<(Option<&DIDUrl>, Option<MethodScope>)> = vec![(Some(&m.id), None)];
@@ -737,7 +810,7 @@ impl Cx {
     for (mid, scope) in positive {
       let vo = base(o.nonce.as_deref(), mid, scope);
       self.rep.inc("positive_verifications");
-      match catch(|| core.verify_jws(token.as_str(), det, &verifier, &vo).map(|d| d.claims.to_vec())) {
+      match catch(|| doc.verify(token.as_str(), det, &vo).map(|(c, _)| c)) {
         Err(p) => self.viol(&format!("verify_jws-panic@{}", p.file_only()), format!("{} at {}", p.msg, p.loc()), &case),
         Ok(Err(e)) => self.viol(
           "own-token-does-not-verify:create_jws",
@@ -756,7 +829,7 @@ impl Cx {
     for other in specs.iter().filter(|s| s.id != m.id) {
       self.rep.inc("negative_verifications");
       let vo = base(o.nonce.as_deref(), Some(&other.id), None);
-      if let Ok(Ok(_)) = catch(|| core.verify_jws(token.as_str(), det, &verifier, &vo).map(|_| ())) {
+      if let Ok(Ok(_)) = catch(|| doc.verify(token.as_str(), det, &vo).map(|_| ())) {
         self.viol("verifies-under-other-method-key", format!("token for {} verifies with method_id {}", m.id, other.id), &case);
       }
     }
@@ -764,10 +837,11 @@ impl Cx {
       self.rep.inc("negative_verifications");
       self.rep.inc("negative_verifications:foreign-namesake");
       let vo = base(o.nonce.as_deref(), Some(other), None);
-      if let Ok(Ok(_)) = catch(|| core.verify_jws(token.as_str(), det, &verifier, &vo).map(|_| ())) {
+      if let Ok(Ok(_)) = catch(|| doc.verify(token.as_str(), det, &vo).map(|_| ())) {
         self.viol("verifies-under-other-method-key:foreign-namesake", format!("token for {} verifies with method_id {}", m.id, other), &case);
       }
     }
+    self.dangling_negatives(doc, token.as_str(), det, o.nonce.as_deref(), &m, dang, &case);
     // negatives: nonce
     let wrong_nonces: Vec<Option<String>> = match &o.nonce {
       Some(n) => vec![None, Some(format!("{}x", n)), Some(String::new()), Some(n.to_uppercase())],
@@ -779,7 +853,7 @@ impl Cx {
       }
       self.rep.inc("negative_verifications");
       let vo = base(wn.as_deref(), Some(&m.id), None);
-      if let Ok(Ok(_)) = catch(|| core.verify_jws(token.as_str(), det, &verifier, &vo).map(|_| ())) {
+      if let Ok(Ok(_)) = catch(|| doc.verify(token.as_str(), det, &vo).map(|_| ())) {
         self.viol("verifies-with-wrong-nonce", format!("token with nonce {:?} verifies with configured nonce {:?}", o.nonce, wn), &case);
       }
     }
@@ -791,7 +865,7 @@ impl Cx {
       self.rep.inc("negative_verifications");
       for mid in [Some(&m.id), None] {
         let vo = base(o.nonce.as_deref(), mid, Some(s));
-        if let Ok(Ok(_)) = catch(|| core.verify_jws(token.as_str(), det, &verifier, &vo).map(|_| ())) {
+        if let Ok(Ok(_)) = catch(|| doc.verify(token.as_str(), det, &vo).map(|_| ())) {
           self.viol("verifies-in-excluding-scope", format!("token for {} (scopes {:?}) verifies under scope {}", m.id, m.scopes.iter().map(|s| s.as_str()).collect::<Vec<_>>(), s.as_str()), &case);
         }
       }
@@ -804,8 +878,8 @@ impl Cx {
       )
       .expect("harness credential");
       let r = catch(|| match doc {
-        Doc::Core(d) => block_on(d.create_credential_jwt(&cred, storage, &m.fragment, &o, None)).is_ok(),
-        Doc::Iota(d) => block_on(d.create_credential_jwt(&cred, storage, &m.fragment, &o, None)).is_ok(),
+        Doc::Core(d) => block_on(d.create_credential_jwt(&cred, storage, &addr, &o, None)).is_ok(),
+        Doc::Iota(d) => block_on(d.create_credential_jwt(&cred, storage, &addr, &o, None)).is_ok(),
       });
       match r {
         Err(p) => self.viol(&format!("create_credential_jwt-panic@{}", p.file_only()), p.msg.clone(), &case),
@@ -814,13 +888,408 @@ impl Cx {
       }
       let pres: Presentation<identity_credential::credential::Jwt> = Presentation::builder(Url::parse("did:example:c08").unwrap(), Object::new()).build().expect("harness presentation");
       let r = catch(|| match doc {
-        Doc::Core(d) => block_on(d.create_presentation_jwt(&pres, storage, &m.fragment, &o, &JwtPresentationOptions::default())).is_ok(),
-        Doc::Iota(d) => block_on(d.create_presentation_jwt(&pres, storage, &m.fragment, &o, &JwtPresentationOptions::default())).is_ok(),
+        Doc::Core(d) => block_on(d.create_presentation_jwt(&pres, storage, &addr, &o, &JwtPresentationOptions::default())).is_ok(),
+        Doc::Iota(d) => block_on(d.create_presentation_jwt(&pres, storage, &addr, &o, &JwtPresentationOptions::default())).is_ok(),
       });
       match r {
         Err(p) => self.viol(&format!("create_presentation_jwt-panic@{}", p.file_only()), p.msg.clone(), &case),
         Ok(true) => self.viol("presentation-jwt-accepts-detached-or-unencoded", "create_presentation_jwt accepted detached/b64=false options".into(), &case),
         Ok(false) => {}
+      }
+    }
+  }
+}
+
+// ---------------------------------------------------------------------------------------------
+// Part C: references to methods the document does not contain; encoder tokens signed through the storage and verified
+// against the document
+// ---------------------------------------------------------------------------------------------
+impl Cx {
+  /// A token produced for method `m` never verifies when the verifier names a dangling reference (the id of a method of
+  /// another DID that the document does not contain), whatever the scope: in the relationships that hold the reference
+  /// (they exclude the token's method when it shares the fragment), in every other scope, and without a scope.
+  #[allow(clippy::too_many_arguments)]
+  fn dangling_negatives(&mut self, doc: &Doc, token: &str, det: Option<&[u8]>, nonce: Option<&str>, m: &MethodSpec, dang: &[Dangling], case: &Value) {
+    for d in dang {
+      let namesake = d.id.fragment() == m.id.fragment();
+      let mut scopes: Vec<Option<MethodScope>> = vec![None];
+      scopes.extend(all_scopes().into_iter().map(Some));
+      for scope in scopes {
+        let holds = matches!(scope, Some(MethodScope::VerificationRelationship(r)) if d.rels.contains(&r));
+        self.rep.inc("negative_verifications");
+        self.rep.inc("negative_verifications:dangling-reference");
+        if holds && namesake {
+          self.rep.inc("negative_verifications:dangling-reference:namesake-in-its-scope");
+          self.rep.inc(&format!("negative_verifications:dangling-reference:namesake-in-its-scope:{}", d.kind));
+        }
+        let vo = vopts(nonce, Some(&d.id), scope);
+        if let Ok(Ok(_)) = catch(|| doc.verify(token, det, &vo).map(|_| ())) {
+          let how = match scope {
+            None => "unscoped",
+            Some(_) if holds => "scoped",
+            Some(_) => "scope-without-it",
+          };
+          self.viol(
+            &format!("verifies-under-dangling-reference:{}", how),
+            format!("token for {} verifies with method_id {} (a reference to a method the document does not contain, listed in {:?}), scope {:?}", m.id, d.id,
+              d.rels.iter().map(|r| MethodScope::VerificationRelationship(*r).as_str()).collect::<Vec<_>>(), scope.map(|s| s.as_str())),
+            case,
+          );
+        }
+      }
+    }
+  }
+
+  /// The document method behind a spec together with the id of its key in the storage (set-up; `None` never happens for
+  /// methods generated through the storage).
+  fn storage_key<'d>(doc: &'d Doc, storage: &Store, m: &MethodSpec) -> Option<(&'d VerificationMethod, KeyId)> {
+    let method = doc.core().resolve_method(&m.id, None)?;
+    if method.id() != &m.id {
+      return None;
+    }
+    let digest = MethodDigest::new(method).ok()?;
+    let key_id = block_on(storage.key_id_storage().get_key_id(&digest)).ok()?;
+    Some((method, key_id))
+  }
+
+  /// Encoder -> storage signature -> document verification: a JWS assembled with one of the three encoders from a header
+  /// with no `kid`, an unrelated `kid` or the method's id, signed with the storage key of a document method, verifies
+  /// against the document when the verifier names that method (and returns what was signed), and never under another
+  /// method, a dangling reference, another nonce or an excluding scope.
+  #[allow(clippy::too_many_arguments)]
+  fn bridge_case(&mut self, rng: &mut Rng, doc: &Doc, storage: &Store, specs: &[MethodSpec], twins: &[DIDUrl], dang: &[Dangling], iota: bool) {
+    self.rep.eval();
+    let m = rng.pick(specs).clone();
+    let (pl, pclass) = payload(rng);
+    let b64 = match rng.below(5) {
+      0 => Some(false),
+      1 => Some(true),
+      _ => None,
+    };
+    let eff_b64 = b64.unwrap_or(true);
+    let ser = match rng.below(8) {
+      0 => "flattened",
+      1 => "general",
+      _ => "compact",
+    };
+    // attached unencoded payloads in the JSON serializations are Part A's business (string escaping); here they are detached
+    let detached = if ser != "compact" && !eff_b64 { true } else { rng.chance(1, 3) };
+    let transmitted: Vec<u8> = if eff_b64 { url_encode(&pl).into_bytes() } else { pl.clone() };
+    let det: Option<&[u8]> = if detached { Some(&transmitted) } else { None };
+
+    // header: alg of the key, kid absent / unrelated / the method's id, optional further parameters
+    let others: Vec<&MethodSpec> = specs.iter().filter(|s| s.id != m.id).collect();
+    let (kid, kid_class): (Option<String>, &'static str) = match rng.below(8) {
+      0..=3 => (None, "no-kid"),
+      4 => (Some(rng.pick(&["my-own-key-identifier", "did:example:someone-else#key-0", "#no-such-fragment", ""]).to_string()), "unrelated-kid"),
+      5 if !others.is_empty() => (Some(rng.pick(&others).id.to_string()), "other-method-kid"),
+      5 => (Some("urn:uuid:5a1c0f4e".to_string()), "unrelated-kid"),
+      6 => {
+        let mut pool: Vec<String> = twins.iter().map(|t| t.to_string()).collect();
+        pool.extend(dang.iter().map(|d| d.id.to_string()));
+        if pool.is_empty() {
+          (Some("did:example:bob#key-1".to_string()), "unrelated-kid")
+        } else {
+          (Some(rng.pick(&pool).clone()), "foreign-method-kid")
+        }
+      }
+      _ => (Some(m.id.to_string()), "own-kid"),
+    };
+    let nonce: Option<String> = if rng.chance(1, 3) { Some(format!("nonce-{}", rng.below(100_000))) } else { None };
+    let mut members: Vec<String> = vec!["\"alg\":\"EdDSA\"".to_string()];
+    if let Some(k) = &kid {
+      members.push(format!("\"kid\":{}", json!(k)));
+    }
+    if let Some(n) = &nonce {
+      members.push(format!("\"nonce\":{}", json!(n)));
+    }
+    if let Some(b) = b64 {
+      members.push(format!("\"b64\":{}", b));
+      members.push("\"crit\":[\"b64\"]".into());
+    }
+    if rng.bool() {
+      members.push(format!("\"typ\":{}", json!(rng.pick(&["JWT", "example+jws", "ü"]))));
+    }
+    if rng.chance(1, 4) {
+      members.push("\"cty\":\"application/json\"".into());
+    }
+    if rng.chance(1, 4) {
+      members.push("\"url\":\"https://example.com/endpoint?a=b\"".into());
+    }
+    if rng.chance(1, 4) {
+      members.push(format!("\"x-harness\":{}", rng.pick(&["1", "\"ü\\n\"", "[1,{\"a\":null}]", "{\"deep\":{\"er\":[true,false]}}"])));
+    }
+    rng.shuffle(&mut members);
+    let prot_json = format!("{{{}}}", members.join(","));
+    let prot: JwsHeader = serde_json::from_str(&prot_json).expect("generated header");
+
+    let Some((method, key_id)) = Self::storage_key(doc, storage, &m) else {
+      self.rep.inc("bridge_setup_failed");
+      return;
+    };
+    let Ok(jwk) = method.data().try_public_key_jwk() else {
+      self.rep.inc("bridge_setup_failed");
+      return;
+    };
+    let case = json!({"part":"bridge","document": if iota {"IotaDocument"} else {"CoreDocument"}, "serialization": ser, "method": m.id.to_string(),
+      "method_scopes": m.scopes.iter().map(|s| s.as_str()).collect::<Vec<_>>(), "protected": prot_json, "kid_class": kid_class, "b64": b64, "detached": detached,
+      "dangling_references": dang.iter().map(|d| json!({"id": d.id.to_string(), "in": d.rels.iter().map(|r| MethodScope::VerificationRelationship(*r).as_str()).collect::<Vec<_>>()})).collect::<Vec<_>>(),
+      "payload_b64url": url_encode(&pl), "payload_class": pclass});
+    let sign = |si: &[u8], key_id: &KeyId, jwk: &Jwk| -> Result<Vec<u8>, String> { block_on(storage.key_storage().sign(key_id, si, jwk)).map_err(|e| e.to_string()) };
+
+    if ser != "compact" {
+      self.bridge_json(rng, doc, storage, specs, &m, ser == "general", &prot, &pl, detached, det, kid_class, &case);
+      return;
+    }
+    let urlsafe = rng.chance(1, 4);
+    let opt = if detached {
+      CompactJwsEncodingOptions::Detached
+    } else {
+      CompactJwsEncodingOptions::NonDetached { charset_requirements: if urlsafe { CharSet::UrlSafe } else { CharSet::Default } }
+    };
+    let r = catch(|| {
+      CompactJwsEncoder::new_with_options(&pl, &prot, opt).map(|enc| {
+        let si = enc.signing_input().to_vec();
+        sign(&si, &key_id, jwk).map(|sig| enc.into_jws(&sig))
+      })
+    });
+    let token: String = match r {
+      Err(p) => {
+        self.viol(&format!("encoder-panic@{}", p.file_only()), format!("{} at {}", p.msg, p.loc()), &case);
+        return;
+      }
+      Ok(Err(_)) => {
+        self.rep.inc("bridge_encoder_refused");
+        if detached || eff_b64 || in_charset(&pl, urlsafe) {
+          self.rep.inc("bridge_encoder_refused_legal_input");
+        }
+        return;
+      }
+      Ok(Ok(Err(_))) => {
+        self.rep.inc("bridge_storage_sign_failed");
+        return;
+      }
+      Ok(Ok(Ok(t))) => t,
+    };
+    self.rep.inc("produced");
+    self.rep.inc("produced:bridge");
+    self.rep.inc(&format!("produced:bridge:{}", kid_class));
+    self.rep.distinct("nontrivial", &format!("bridge|compact|{}|{}|b64:{:?}|det:{}|{}|nonce:{}|iota:{}", pclass, m.scopes.len(), b64, detached, kid_class, nonce.is_some(), iota));
+    let mut case = case.clone();
+    case["token"] = json!(token);
+
+    // positives: the verifier names the method (with and without each containing scope); the kid alone when it is the id
+    let mut positive: Vec<(Option<&DIDUrl>, Option<MethodScope>)> = vec![(Some(&m.id), None)];
+    for s in &m.scopes {
+      positive.push((Some(&m.id), Some(*s)));
+    }
+    if kid_class == "own-kid" {
+      positive.push((None, None));
+      positive.push((None, Some(m.scopes[0])));
+    }
+    for (mid, scope) in positive {
+      let vo = vopts(nonce.as_deref(), mid, scope);
+      self.rep.inc("positive_verifications");
+      self.rep.inc("positive_verifications:bridge");
+      match catch(|| doc.verify(&token, det, &vo)) {
+        Err(p) => self.viol(&format!("verify_jws-panic@{}", p.file_only()), format!("{} at {}", p.msg, p.loc()), &case),
+        Ok(Err(e)) => self.viol(
+          &format!("own-token-does-not-verify:encoder-bridge:{}", kid_class),
+          format!("verify_jws(method_id={:?}, scope={:?}) failed on a {} encoder token signed with the storage key of {}: {}", mid.map(|m| m.to_string()), scope.map(|s| s.as_str()), kid_class, m.id, e),
+          &case,
+        ),
+        Ok(Ok((claims, header))) => {
+          self.rep.inc("verified");
+          self.rep.inc("verified:bridge");
+          self.rep.inc(&format!("verified:bridge:{}", kid_class));
+          if claims != pl {
+            self.viol("bridge-claims-differ", "claims after verify_jws differ from the payload signed".into(), &case);
+          }
+          if header != prot {
+            self.viol("bridge-protected-header-differs", format!("protected header after verify_jws {:?} differs from the one encoded", header), &case);
+          }
+        }
+      }
+    }
+    // negatives: every other method named by the verifier
+    for other in others.iter().map(|s| &s.id).chain(twins.iter()) {
+      self.rep.inc("negative_verifications");
+      self.rep.inc("negative_verifications:bridge");
+      let vo = vopts(nonce.as_deref(), Some(other), None);
+      if let Ok(Ok(_)) = catch(|| doc.verify(&token, det, &vo).map(|_| ())) {
+        self.viol("verifies-under-other-method-key:encoder-bridge", format!("encoder token signed with the key of {} verifies with method_id {}", m.id, other), &case);
+      }
+    }
+    // ... or named by the kid alone (another method of the document, a foreign namesake, a dangling reference)
+    if kid_class == "other-method-kid" || kid_class == "foreign-method-kid" {
+      let mut scopes: Vec<Option<MethodScope>> = vec![None];
+      scopes.extend(all_scopes().into_iter().map(Some));
+      for scope in scopes {
+        self.rep.inc("negative_verifications");
+        self.rep.inc("negative_verifications:bridge");
+        let vo = vopts(nonce.as_deref(), None, scope);
+        if let Ok(Ok(_)) = catch(|| doc.verify(&token, det, &vo).map(|_| ())) {
+          self.viol("verifies-under-other-method-key:encoder-bridge:kid", format!("encoder token signed with the key of {} and kid {:?} verifies through its kid (scope {:?})", m.id, kid, scope.map(|s| s.as_str())), &case);
+        }
+      }
+    }
+    self.dangling_negatives(doc, &token, det, nonce.as_deref(), &m, dang, &case);
+    // negatives: nonce
+    let wrong_nonces: Vec<Option<String>> = match &nonce {
+      Some(n) => vec![None, Some(format!("{}x", n)), Some(String::new())],
+      None => vec![Some("unexpected".into()), Some(String::new())],
+    };
+    for wn in wrong_nonces {
+      self.rep.inc("negative_verifications");
+      self.rep.inc("negative_verifications:bridge");
+      let vo = vopts(wn.as_deref(), Some(&m.id), None);
+      if let Ok(Ok(_)) = catch(|| doc.verify(&token, det, &vo).map(|_| ())) {
+        self.viol("verifies-with-wrong-nonce:encoder-bridge", format!("token with nonce {:?} verifies with configured nonce {:?}", nonce, wn), &case);
+      }
+    }
+    // negatives: scopes that exclude the method
+    for s in all_scopes() {
+      if m.scopes.contains(&s) {
+        continue;
+      }
+      self.rep.inc("negative_verifications");
+      self.rep.inc("negative_verifications:bridge");
+      for mid in [Some(&m.id), None] {
+        let vo = vopts(nonce.as_deref(), mid, Some(s));
+        if let Ok(Ok(_)) = catch(|| doc.verify(&token, det, &vo).map(|_| ())) {
+          self.viol("verifies-in-excluding-scope:encoder-bridge", format!("encoder token signed with the key of {} (scopes {:?}) verifies under scope {}", m.id, m.scopes.iter().map(|s| s.as_str()).collect::<Vec<_>>(), s.as_str()), &case);
+        }
+      }
+    }
+  }
+
+  /// The JSON serializations cannot go through `verify_jws` (compact only): the token is decoded with the library's decoder
+  /// and each signature is verified with the key the DOCUMENT holds for the method it was produced for (resolved with and
+  /// without a containing scope), and must fail with the key the document holds for any other recipient's method.
+  #[allow(clippy::too_many_arguments)]
+  fn bridge_json(&mut self, rng: &mut Rng, doc: &Doc, storage: &Store, specs: &[MethodSpec], m: &MethodSpec, general: bool, prot: &JwsHeader, pl: &[u8], detached: bool, det: Option<&[u8]>, kid_class: &str, case: &Value) {
+    // recipients: the chosen method first; the general form adds up to two further methods of the document, each with its
+    // own copy of the header
+    let mut recipients: Vec<MethodSpec> = vec![m.clone()];
+    if general {
+      let mut rest: Vec<MethodSpec> = specs.iter().filter(|s| s.id != m.id).cloned().collect();
+      rng.shuffle(&mut rest);
+      recipients.extend(rest.into_iter().take(rng.usize(3)));
+    }
+    let mut keys: Vec<(Jwk, KeyId)> = Vec::new();
+    for r in &recipients {
+      let Some((method, key_id)) = Self::storage_key(doc, storage, r) else {
+        self.rep.inc("bridge_setup_failed");
+        return;
+      };
+      let Ok(jwk) = method.data().try_public_key_jwk() else {
+        self.rep.inc("bridge_setup_failed");
+        return;
+      };
+      keys.push((jwk.clone(), key_id));
+    }
+    let sign = |si: &[u8], i: usize| -> Result<Vec<u8>, String> { block_on(storage.key_storage().sign(&keys[i].1, si, &keys[i].0)).map_err(|e| e.to_string()) };
+    let r = catch(|| -> Result<Result<String, String>, identity_jose::error::Error> {
+      if !general {
+        let enc = FlattenedJwsEncoder::new(pl, Recipient { protected: Some(prot), unprotected: None }, detached)?;
+        let si = enc.signing_input().to_vec();
+        return Ok(match sign(&si, 0) {
+          Ok(sig) => Ok(enc.into_jws(&sig)?),
+          Err(e) => Err(e),
+        });
+      }
+      let enc = GeneralJwsEncoder::new(pl, Recipient { protected: Some(prot), unprotected: None }, detached)?;
+      let si = enc.signing_input().to_vec();
+      let mut ready = match sign(&si, 0) {
+        Ok(sig) => enc.set_signature(&sig),
+        Err(e) => return Ok(Err(e)),
+      };
+      for i in 1..recipients.len() {
+        let enc = ready.add_recipient(Recipient { protected: Some(prot), unprotected: None })?;
+        let si = enc.signing_input().to_vec();
+        ready = match sign(&si, i) {
+          Ok(sig) => enc.set_signature(&sig),
+          Err(e) => return Ok(Err(e)),
+        };
+      }
+      Ok(Ok(ready.into_jws()?))
+    });
+    let token = match r {
+      Err(p) => {
+        self.viol(&format!("encoder-panic@{}", p.file_only()), format!("{} at {}", p.msg, p.loc()), case);
+        return;
+      }
+      Ok(Err(_)) => {
+        self.rep.inc("bridge_encoder_refused");
+        return;
+      }
+      Ok(Ok(Err(_))) => {
+        self.rep.inc("bridge_storage_sign_failed");
+        return;
+      }
+      Ok(Ok(Ok(t))) => t,
+    };
+    let ser = if general { "general" } else { "flattened" };
+    self.rep.inc("produced");
+    self.rep.inc("produced:bridge");
+    self.rep.inc(&format!("produced:bridge:{}", ser));
+    self.rep.distinct("nontrivial", &format!("bridge|{}|n:{}|det:{}|{}", ser, recipients.len(), detached, kid_class));
+    let mut case = case.clone();
+    case["token"] = json!(token);
+    case["recipients"] = json!(recipients.iter().map(|r| r.id.to_string()).collect::<Vec<_>>());
+    let verifier = EdDSAJwsVerifier::default();
+    // every (signature i, key the document holds for recipient j): verifies iff i == j
+    for i in 0..recipients.len() {
+      for j in 0..recipients.len() {
+        let scopes: Vec<Option<MethodScope>> = if i == j { std::iter::once(None).chain(recipients[j].scopes.iter().map(|s| Some(*s))).collect() } else { vec![None] };
+        for scope in scopes {
+          let Some(key) = doc.core().resolve_method(&recipients[j].id, scope).and_then(|vm| vm.data().try_public_key_jwk().ok()) else {
+            if i == j {
+              self.viol(&format!("bridge-method-does-not-resolve:{}", ser), format!("method {} does not resolve in its own scope {:?}", recipients[j].id, scope.map(|s| s.as_str())), &case);
+            }
+            continue;
+          };
+          let outcome = catch(|| -> Result<Option<Vec<u8>>, String> {
+            let decoder = Decoder::new();
+            let item = if general {
+              let mut items = decoder.decode_general_serialization(token.as_bytes(), det).map_err(|e| format!("decode: {}", e))?;
+              items.nth(i).ok_or_else(|| "decode: signature missing".to_string())?.map_err(|e| format!("decode: {}", e))?
+            } else {
+              decoder.decode_flattened_serialization(token.as_bytes(), det).map_err(|e| format!("decode: {}", e))?
+            };
+            Ok(item.verify(&verifier, key).ok().map(|d| d.claims.to_vec()))
+          });
+          match outcome {
+            Err(p) => self.viol(&format!("decoder-panic@{}", p.file_only()), format!("{} at {}", p.msg, p.loc()), &case),
+            Ok(Err(e)) => self.viol(&format!("own-token-does-not-decode:encoder-bridge:{}", ser), format!("decoder rejected the library's own token: {}", e), &case),
+            Ok(Ok(res)) if i == j => {
+              self.rep.inc("positive_verifications");
+              self.rep.inc("positive_verifications:bridge");
+              match res {
+                Some(claims) => {
+                  self.rep.inc("verified");
+                  self.rep.inc("verified:bridge");
+                  self.rep.inc("verified:bridge:json");
+                  if claims != pl {
+                    self.viol(&format!("bridge-claims-differ:{}", ser), "claims after verification differ from the payload signed".into(), &case);
+                  }
+                }
+                None => self.viol(
+                  &format!("own-token-does-not-verify:encoder-bridge:{}", ser),
+                  format!("signature {} (storage key of {}) does not verify with the key the document holds for that method (scope {:?})", i, recipients[i].id, scope.map(|s| s.as_str())),
+                  &case,
+                ),
+              }
+            }
+            Ok(Ok(res)) => {
+              self.rep.inc("negative_verifications");
+              self.rep.inc("negative_verifications:bridge");
+              if res.is_some() {
+                self.viol(&format!("verifies-under-other-method-key:encoder-bridge:{}", ser), format!("signature {} (storage key of {}) verifies with the document's key for {}", i, recipients[i].id, recipients[j].id), &case);
+              }
+            }
+          }
+        }
       }
     }
   }
@@ -834,7 +1303,11 @@ fn main() {
     "Part A: (payload class x serialization x b64 absent/true/false x detached x charset option x 1-4 recipients x generated legal header \
      sets) through the three encoders; Part B: (document kind x method in 1-4 scopes x every JwsSignatureOptions field x payload class) through \
      create_jws, then positive verify_jws (method id given / from kid, each containing scope) and negative (every other method, wrong/absent \
-     nonce, every excluding scope). Non-trivial = a token was produced; distinct by the class tuple of those dimensions.",
+     nonce, every excluding scope; every dangling reference to another DID's method - look-alike DID or did:example:bob, own fragment, placed \
+     in relationships without the own method - named as method id under every scope and none). Part C: (serialization x kid absent / unrelated / \
+     another method's / own id x b64 x detached x nonce) encoder tokens signed through the storage key of a document method, verified with \
+     verify_jws (JSON forms: decoder + the document's key) positively under the named method and negatively as in Part B. Non-trivial = a token \
+     was produced; distinct by the class tuple of those dimensions.",
   );
   let mut rng = args.rng(8);
   let n_a = (if args.thorough { 2_400_000u64 } else { 8_000 } * scale / 1000 / args.nshards).max(60);
@@ -843,11 +1316,19 @@ fn main() {
   }
   let n_docs = (if args.thorough { 16_000u64 } else { 64 } * scale / 1000 / args.nshards).max(2);
   let per_doc = if args.thorough { 40 } else { 25 };
+  let per_doc_bridge = if args.thorough { 24 } else { 16 };
   for d in 0..n_docs {
     let iota = d % 3 == 2;
-    let (doc, storage, specs, twins) = build_doc(&mut rng, iota);
+    let (doc, storage, specs, twins, dang) = build_doc(&mut rng, iota);
+    cx.rep.inc("documents");
+    if !dang.is_empty() {
+      cx.rep.inc("documents_with_dangling_references");
+    }
     for _ in 0..per_doc {
-      cx.storage_case(&mut rng, &doc, &storage, &specs, &twins, iota);
+      cx.storage_case(&mut rng, &doc, &storage, &specs, &twins, &dang, iota);
+    }
+    for _ in 0..per_doc_bridge {
+      cx.bridge_case(&mut rng, &doc, &storage, &specs, &twins, &dang, iota);
     }
   }
   cx.rep.finish();
